@@ -1,4 +1,5 @@
 import Chewing.Proofs.TrieBufHist
+import Chewing.Proofs.SqliteDict
 /-!
 # C09 — Mutable dictionaries behave as a map under any update history
 
@@ -324,7 +325,74 @@ theorem max_code_point_phrase_refuted :
   rw [h1] at hp
   exact absurd hp (by simp)
 
-/-! ## 7. Non-vacuity: the hypotheses are satisfiable and the classes are inhabited -/
+/-! ## 7. The SQLite user dictionary (feature `sqlite`; relational model, `Model/SqliteDict.lean`)
+
+Its specification `SqliteDict.SMap` differs from `MapSpec` by design of the back end: the value is
+`(freq, Option (user_freq, time))` and a lookup reports `max(freq, user_freq)`; `add_phrase` replaces
+a live row instead of being rejected, `update_phrase` of a learned phrase changes `user_freq` only.
+With that specification there is **no** exclusion: refinement and answers hold in every state. -/
+
+/-- all histories, starting from any content written by `SqliteDictionaryBuilder` -/
+theorem sqlite_refines (es : List Entry) (ops : List SqliteDict.Op) :
+    SqliteDict.Inv (SqliteDict.run (SqliteDict.build es) ops) ∧
+      SqliteDict.abs (SqliteDict.run (SqliteDict.build es) ops) = (SqliteDict.abs (SqliteDict.build es)).run ops :=
+  SqliteDict.run_refines (SqliteDict.inv_build es) ops
+
+/-- … in particular from an empty database -/
+theorem sqlite_refines_fresh (ops : List SqliteDict.Op) :
+    SqliteDict.abs (SqliteDict.run SqliteDict.init ops) = SqliteDict.SMap.empty.run ops :=
+  (SqliteDict.run_refines SqliteDict.inv_init ops).2
+
+/-- answers in every state of every history: a lookup returns exactly the live phrases of the
+    syllables, each once, with the reported value; the enumeration exactly the live entries; the
+    first n results are the first n of the full result (the lookup strategy is ignored) -/
+theorem sqlite_answers (es : List Entry) (ops : List SqliteDict.Op) :
+    let s := SqliteDict.run (SqliteDict.build es) ops
+    (∀ k, SqliteDict.IsLookup (SqliteDict.abs s) k (SqliteDict.lookupAll s k)) ∧
+    SqliteDict.IsEntries (SqliteDict.abs s) (SqliteDict.entries s) ∧
+    (∀ k n st, SqliteDict.lookupFirstN s k n st = (SqliteDict.lookupAll s k).take n) := by
+  intro s
+  have h := (sqlite_refines es ops).1
+  exact ⟨fun k => SqliteDict.lookup_agrees h k, SqliteDict.entries_agrees h, fun _ _ _ => rfl⟩
+
+/-- a removed phrase stays absent until it is added or updated again -/
+theorem sqlite_removed_stays_absent (s : SqliteDict.State) (hs : SqliteDict.Inv s) (k : Key) (t : Text)
+    (ops : List SqliteDict.Op) (hw : ∀ op ∈ ops, SqliteDict.SMap.writes (k, t) op = false) :
+    let s' := SqliteDict.run (SqliteDict.apply s (.remove k t)) ops
+    SqliteDict.abs s' (k, t) = none ∧ t ∉ (SqliteDict.lookupAll s' k).map (·.text) := by
+  intro s'
+  have h1 := SqliteDict.inv_apply hs (.remove k t)
+  have h2 := SqliteDict.run_refines h1 ops
+  have habs : SqliteDict.abs s' (k, t) = none := by
+    show SqliteDict.abs (SqliteDict.run (SqliteDict.apply s (.remove k t)) ops) (k, t) = none
+    rw [h2.2, SqliteDict.abs_apply hs]
+    exact SqliteDict.SMap.run_absent (by simp [SqliteDict.SMap.apply, SqliteDict.SMap.set]) ops hw
+  refine ⟨habs, ?_⟩
+  intro hm
+  obtain ⟨p, hp, e⟩ := List.mem_map.mp hm
+  obtain ⟨v, hv, _⟩ := (SqliteDict.lookup_agrees h2.1 k).2.1 p hp
+  rw [e, habs] at hv
+  exact absurd hv (by simp)
+
+/-- … and `add_phrase` / `update_phrase` make it live again with the written value -/
+theorem sqlite_readd_visible_again (s : SqliteDict.State) (hs : SqliteDict.Inv s) (k : Key) (t : Text) (f : Nat) :
+    SqliteDict.abs (SqliteDict.apply s (.add k t f)) (k, t) = some (f, none) ∧
+      { text := t, freq := f, lastUsed := none } ∈ SqliteDict.lookupAll (SqliteDict.apply s (.add k t f)) k := by
+  have h1 := SqliteDict.inv_apply hs (.add k t f)
+  have habs : SqliteDict.abs (SqliteDict.apply s (.add k t f)) (k, t) = some (f, none) := by
+    rw [SqliteDict.abs_apply hs]; simp [SqliteDict.SMap.apply, SqliteDict.SMap.set]
+  refine ⟨habs, ?_⟩
+  obtain ⟨p, hp, e⟩ := (SqliteDict.lookup_agrees h1 k).2.2 t _ habs
+  obtain ⟨v, hv, hr⟩ := (SqliteDict.lookup_agrees h1 k).2.1 p hp
+  rw [e, habs] at hv
+  simp only [Option.some.injEq] at hv
+  rw [← hv] at hr
+  simp only [SqliteDict.report, Prod.mk.injEq] at hr
+  have : p = { text := t, freq := f, lastUsed := none } := by
+    cases p; simp_all
+  rw [← this]; exact hp
+
+/-! ## 8. Non-vacuity: the hypotheses are satisfiable and the classes are inhabited -/
 
 /-- F09 regression (fixed): remove then re-add / update is visible again, also across a snapshot -/
 example : lookupAll (run initMem [.add kCe4 tCe 1 (some 2), .remove kCe4 tCe, .add kCe4 tCe 3 (some 4)]) kCe4 .standard
